@@ -26,6 +26,15 @@ func gen(seed int64, tier string, idx int) *pipe.Scenario {
 	switch instant {
 	case "startup":
 		steps = append(steps, pipe.Step{AtEvent: g.R.Intn(14), Op: "forcestop", AfterPrevUs: g.R.Intn(400)})
+		if idx%12 == 0 {
+			// the DLQ plugin is slow to come up while records are already being read
+			// and rejected: their nacks wait for the DLQ when the force stop arrives
+			sc.Topo.DLQ.OpenLatencyUs = 30000 + g.R.Intn(50000)
+			sc.Topo.Dests[0].Dst.NackPermille = 500
+			sc.Topo.Dests[0].Dst.LatencyUs = nil
+			steps[0] = pipe.Step{AtEvent: 12 + g.R.Intn(30), Op: "forcestop", AfterPrevUs: g.R.Intn(3000)}
+			sc.Name = "startup-dlq-slow"
+		}
 	case "mid":
 		steps = append(steps, pipe.Step{AtEvent: 25 + g.R.Intn(250), Op: "forcestop"})
 	case "dst-blocked":
